@@ -155,6 +155,17 @@ func TestVerif_C30(t *testing.T) {
 		return
 	}
 	defer os.RemoveAll(pki.dir)
+	// The host's trust store is part of the environment: make it deterministic and hostile. It
+	// holds exactly CA2 - a CA the server was never configured with. A client certificate issued by
+	// CA2 must be refused whatever the host trusts for other purposes. (Has to happen before
+	// anything in this process loads the system pool; the clients pass explicit roots.)
+	sysBundle := filepath.Join(pki.dir, "host-trust-store.pem")
+	vfWritePEM(sysBundle, "CERTIFICATE", pki.ca2.Raw)
+	emptyDir := filepath.Join(pki.dir, "empty-cert-dir")
+	os.Mkdir(emptyDir, 0700)
+	os.Setenv("SSL_CERT_FILE", sysBundle)
+	os.Setenv("SSL_CERT_DIR", emptyDir)
+	rec.Set("host_trust_store", "exactly CA2 (SSL_CERT_FILE), which no server configuration names")
 	mins := []uint16{0, tls.VersionTLS10, tls.VersionTLS11, tls.VersionTLS12, tls.VersionTLS13}
 	maxs := []uint16{0, tls.VersionTLS11, tls.VersionTLS12, tls.VersionTLS13}
 	auths := []tls.ClientAuthType{tls.NoClientCert, tls.RequestClientCert, tls.RequireAnyClientCert, tls.VerifyClientCertIfGiven, tls.RequireAndVerifyClientCert}
